@@ -5,52 +5,11 @@ package decode
 
 import "github.com/reactivego/ivg"
 
-func VPDecodeNatural(b []byte) (uint32, int)     { return buffer(b).decodeNatural() }
-func VPDecodeReal(b []byte) (float32, int)       { return buffer(b).decodeReal() }
-func VPDecodeCoordinate(b []byte) (float32, int) { return buffer(b).decodeCoordinate() }
-func VPDecodeZeroToOne(b []byte) (float32, int)  { return buffer(b).decodeZeroToOne() }
-
-func VPDecodeColor1(b []byte) (ivg.Color, int)         { return buffer(b).decodeColor1() }
-func VPDecodeColor2(b []byte) (ivg.Color, int)         { return buffer(b).decodeColor2() }
-func VPDecodeColor3Direct(b []byte) (ivg.Color, int)   { return buffer(b).decodeColor3Direct() }
-func VPDecodeColor4(b []byte) (ivg.Color, int)         { return buffer(b).decodeColor4() }
-func VPDecodeColor3Indirect(b []byte) (ivg.Color, int) { return buffer(b).decodeColor3Indirect() }
-
 // VPPrinter is the printer callback type.
 type VPPrinter = func(b []byte, format string, args ...interface{})
-
-// VPStyling / VPDrawing run one mode-function step. mode: 0 = styling next,
-// 1 = drawing next, -1 = error.
-func VPStyling(dst ivg.Destination, p VPPrinter, src []byte) (mode int, rest []byte, err error) {
-	mf, r, err := decodeStyling(dst, p, src)
-	return vpMode(mf, err), r, err
-}
-
-func VPDrawing(dst ivg.Destination, p VPPrinter, src []byte) (mode int, rest []byte, err error) {
-	mf, r, err := decodeDrawing(dst, p, src)
-	return vpMode(mf, err), r, err
-}
-
-func vpMode(mf modeFunc, err error) int {
-	if err != nil || mf == nil {
-		return -1
-	}
-	var coords [1]byte
-	coords[0] = 0xe1
-	// distinguish the two mode functions by behaviour on a one-byte probe:
-	// 0xe1 is "end path" in drawing mode and unsupported in styling mode.
-	if _, _, e := mf(nil, nil, coords[:]); e != nil {
-		return 0
-	}
-	return 1
-}
 
 // VPDecode is decode() with a caller supplied printer and metadata.
 func VPDecode(dst ivg.Destination, p VPPrinter, m *ivg.Metadata, metadataOnly bool, src []byte, opts ...DecodeOption) error {
 	return decode(dst, p, m, metadataOnly, src, opts...)
 }
 
-func VPMetadataChunk(p VPPrinter, m *ivg.Metadata, src []byte) ([]byte, error) {
-	r, err := decodeMetadataChunk(p, m, src)
-	return r, err
-}
